@@ -1,5 +1,6 @@
 From GV Require Import Common.Outcome C11.Model C11.Spec C11.Proofs.
 
+From GV Require Import C11.RoundSpec C11.RoundRule C11.RoundDecl C11.Round.
 Theorem C11_unescape_spec : unescape_spec_stmt.
 Proof. exact unescape_spec. Qed.
 Print Assumptions C11_unescape_spec.
@@ -43,3 +44,37 @@ Print Assumptions C11_spans_index_source_refuted.
 Theorem C11_target_span_refuted : target_span_refuted_stmt.
 Proof. exact target_span_refuted. Qed.
 Print Assumptions C11_target_span_refuted.
+
+(* the whole-file round-trip law for lexer specifications *)
+(* C11, round trip: parsing the text the formal printer gives for ANY well-formed abstract lexer
+   specification under ANY well-formed layout yields exactly the specification: rules in order
+   with name, name_span, unescaped regex, start-state ids, target; declared start states in order
+   with id, kind, span.  Statements in C11/RoundSpec.v, printer in C11/Print.v. *)
+
+Theorem C11_lex_roundtrip : lex_roundtrip_stmt.
+Proof. exact lex_roundtrip. Qed.
+Print Assumptions C11_lex_roundtrip.
+
+Theorem C11_lex_roundtrip_default : lex_roundtrip_default_stmt.
+Proof. exact lex_roundtrip_default. Qed.
+Print Assumptions C11_lex_roundtrip_default.
+
+Theorem C11_rule_line_roundtrip : rule_line_roundtrip_stmt.
+Proof. exact rule_line_roundtrip. Qed.
+Print Assumptions C11_rule_line_roundtrip.
+
+Theorem C11_rule_line_span : rule_line_span_stmt.
+Proof. exact rule_line_span. Qed.
+Print Assumptions C11_rule_line_span.
+
+Theorem C11_declarations_roundtrip : declarations_roundtrip_stmt.
+Proof. exact declarations_roundtrip. Qed.
+Print Assumptions C11_declarations_roundtrip.
+
+Theorem C11_spec_of_faithful : spec_of_faithful_stmt.
+Proof. exact spec_of_faithful. Qed.
+Print Assumptions C11_spec_of_faithful.
+
+Theorem C11_roundtrip_example : roundtrip_example_stmt.
+Proof. exact roundtrip_example. Qed.
+Print Assumptions C11_roundtrip_example.
